@@ -298,7 +298,22 @@ Theorem prelu_kind_maximum_sound :
     forall c, In c codes -> (c - zp) * sn < sd.
 Proof. exact prelu_kind_max_sound_lemma. Qed.
 
+(* ---- rewrite_concat_ops / rewrite_split_ops: the parts of a tensor along one axis ---- *)
+(* with offsets that are the running sum of the (positive) extents, every position of the axis lies in a part ... *)
+Theorem axis_parts_cover :
+  forall es start k i0, Forall (fun e => 0 < e) es -> start <= k < start + zsum es ->
+    exists i, find_slice start es k i0 = Some (i0 + i)%nat /\ (i < length es)%nat /\
+              nth i (offsets_from start es) 0 <= k < nth i (offsets_from start es) 0 + nth i es 0.
+Proof. exact find_slice_total_lemma. Qed.
+(* ... and no two parts overlap *)
+Theorem axis_parts_disjoint :
+  forall es start i j, Forall (fun e => 0 <= e) es -> (i < j)%nat -> (j < length es)%nat ->
+    nth i (offsets_from start es) 0 + nth i es 0 <= nth j (offsets_from start es) 0.
+Proof. exact slices_disjoint_lemma. Qed.
+
 Print Assumptions space_to_batch_conv_batch_to_space_is_dilation.
+Print Assumptions axis_parts_cover.
+Print Assumptions axis_parts_disjoint.
 Print Assumptions prelu_as_maximum.
 Print Assumptions prelu_as_maximum_needs_slope_at_most_one.
 Print Assumptions prelu_as_relu_plus_minimum.
